@@ -102,19 +102,24 @@ def fourth_order(D, fam):
         o.append("\n/-! ## st2tost2<%d>: action, composition, transposition, dyadic product -/\n" % N)
         o.append(thm(n + "st_apply", [("a", "ST"), ("s", "s")],
                      D.Ost(D.gen("st_apply", [A("a", "ST"), A("s", "s")]), "(T4.app %s %s)" % (D.ST("a"), D.St("s"))),
-                     doc="`C * s` is `(C : s)_ij = C_ijkl s_kl`"))
+                     doc="`C * s` is `(C : s)_ij = C_ijkl s_kl`",
+                     proof="rw [st_app_ST hc h2]; t4_eq hc"))
         o.append(thm(n + "st_applyL", [("s", "s"), ("a", "ST")],
                      D.Ost(D.gen("st_applyL", [A("s", "s"), A("a", "ST")]), "(T4.appL %s %s)" % (D.St("s"), D.ST("a"))),
-                     doc="`s * C` is `(s : C)_kl = s_ij C_ijkl`"))
+                     doc="`s * C` is `(s : C)_kl = s_ij C_ijkl`",
+                     proof="rw [st_appL_ST hc h2]; t4_eq hc"))
         o.append(thm(n + "st_comp", [("a", "ST"), ("b", "ST")],
                      D.OST(D.gen("st_comp", [A("a", "ST"), A("b", "ST")]), "(T4.comp %s %s)" % (D.ST("a"), D.ST("b"))),
-                     doc="`C * D` (expression template product) is `C_ijmn D_mnkl`"))
+                     doc="`C * D` (expression template product) is `C_ijmn D_mnkl`",
+                     proof="rw [stoST_comp_ST_ST hc h2]; t4_eq hc"))
         o.append(thm(n + "st_transpose", [("a", "ST")],
                      D.OST(D.gen("st_transpose", [A("a", "ST")]), "(T4.transpose %s)" % D.ST("a")),
-                     doc="`transpose(C)_ijkl = C_klij`"))
+                     doc="`transpose(C)_ijkl = C_klij`",
+                     proof="rw [stoST_transpose hc h2]; t4_eq hc"))
         o.append(thm(n + "st_dyad", [("s", "s"), ("t", "s")],
                      D.OST(D.gen("st_dyad", [A("s", "s"), A("t", "s")]), "(T2.dyad %s %s)" % (D.St("s"), D.St("t"))),
-                     doc="`s ^ t` is `s_ij t_kl`"))
+                     doc="`s ^ t` is `s_ij t_kl`",
+                     proof="rw [stoST_dyad hc h2]; t4_eq hc"))
         o.append(thm(n + "st_add_scale", [("a", "ST"), ("b", "ST"), ("k", "K")],
                      D.OST(D.gen("st_add_scale", [A("a", "ST"), A("b", "ST"), "k"]), "(T4.lin k %s %s)" % (D.ST("a"), D.ST("b"))),
                      post=" (hk : k ≠ 0)", doc="`k*C + D - C/k` through expression templates"))
@@ -131,25 +136,6 @@ def fourth_order(D, fam):
             o.append(thm(n + "st_fromRotationMatrix", [("r", "r")],
                          D.OST(D.gen("st_fromRotationMatrix", [A("r", "r")]), "T4.idS", masked=True),
                          doc="1D: tensors are not rotated (`change_basis` is the identity), whatever `R`"))
-        if N == 2:
-            o.append(thm(n + "st_change_basis", [("a", "ST"), ("r", "r")],
-                         D.OST(D.gen("st_change_basis", [A("a", "ST"), A("r", "r")]),
-                               "(T4.pushForward (T2.transpose %s) %s)" % (D.R(), D.ST("a"))),
-                         doc="`change_basis(C,R)_ijkl = R_mi R_nj R_pk R_ql C_mnpq`"))
-        if N == 1:
-            o.append(thm(n + "st_change_basis", [("a", "ST"), ("r", "r")],
-                         D.OST(D.gen("st_change_basis", [A("a", "ST"), A("r", "r")]), D.ST("a"))))
-        if N < 3:
-            o.append(thm(n + "st_push_forward", [("a", "ST"), ("f", "t")],
-                         D.OST(D.gen("st_push_forward", [A("a", "ST"), A("f", "t")]),
-                               "(T4.pushForward %s %s)" % (D.Te("f"), D.ST("a"))),
-                         doc="`push_forward(C,F)_ijkl = F_im F_jn F_kp F_lq C_mnpq`"))
-        if N < 3:
-            o.append(thm(n + "st_pull_back", [("a", "ST"), ("f", "t")],
-                         "(%s)\n      = %s" % (D.gen("st_pull_back", [A("a", "ST"), A("f", "t")]),
-                                               D.gen("st_push_forward", [A("a", "ST"), "(vecOf (n := 9) (gen%% (Gen.N%d_t_invert_all c c3 fn) | %s)) %d" % (N, A("f", "t"), D.T)])),
-                         proof="t4_same", hyps="",
-                         doc="`pull_back(C,F) = push_forward(C, invert(F))` (same operations; meaning: `N%d_st_push_forward`, `N%d_t_invert`)" % (N, N)))
         o.append(thm(n + "st_getComponent", [("a", "ST")],
                      "%s\n      = T4.comps pairs%d %s" % (D.gen("st_getComponent", [A("a", "ST")]), N, D.ST("a")),
                      doc="`getComponent(C,i,j,k,l)` is `C_ijkl` for the fourth-order tensor `T4.ofST` reads from the storage"))
@@ -158,17 +144,22 @@ def fourth_order(D, fam):
                      doc="`st2tost2::convert(D)`: restriction of `D` to symmetric arguments, `(D_ijkl + D_ijlk)/2`"))
         o.append(thm(n + "st_comp_ts_s2t", [("a", "TS"), ("b", "S2T")],
                      D.OST(D.gen("st_comp_ts_s2t", [A("a", "TS"), A("b", "S2T")]), "(T4.comp %s %s)" % (D.TS("a"), D.S2T("b"))),
-                     doc="`t2tost2 * st2tot2`"))
+                     doc="`t2tost2 * st2tot2`",
+                     proof="rw [stoST_comp_TS_S2T hc h2]; t4_eq hc"))
     if fam == "tt":
         o.append("\n/-! ## t2tot2<%d> -/\n" % N)
         o.append(thm(n + "tt_apply", [("a", "TT"), ("x", "t")],
-                     D.Ote(D.gen("tt_apply", [A("a", "TT"), A("x", "t")]), "(T4.app %s %s)" % (D.TT("a"), D.Te("x")))))
+                     D.Ote(D.gen("tt_apply", [A("a", "TT"), A("x", "t")]), "(T4.app %s %s)" % (D.TT("a"), D.Te("x"))),
+                     proof="rw [tens_app_TT hc h2]; t4_eq hc"))
         o.append(thm(n + "tt_applyL", [("x", "t"), ("a", "TT")],
-                     D.Ote(D.gen("tt_applyL", [A("x", "t"), A("a", "TT")]), "(T4.appL %s %s)" % (D.Te("x"), D.TT("a")))))
+                     D.Ote(D.gen("tt_applyL", [A("x", "t"), A("a", "TT")]), "(T4.appL %s %s)" % (D.Te("x"), D.TT("a"))),
+                     proof="rw [tens_appL_TT hc h2]; t4_eq hc"))
         o.append(thm(n + "tt_comp", [("a", "TT"), ("b", "TT")],
-                     D.OTT(D.gen("tt_comp", [A("a", "TT"), A("b", "TT")]), "(T4.comp %s %s)" % (D.TT("a"), D.TT("b")))))
+                     D.OTT(D.gen("tt_comp", [A("a", "TT"), A("b", "TT")]), "(T4.comp %s %s)" % (D.TT("a"), D.TT("b"))),
+                     proof="rw [stoTT_comp_TT_TT hc h2]; t4_eq hc"))
         o.append(thm(n + "tt_dyad", [("x", "t"), ("y", "t")],
-                     D.OTT(D.gen("tt_dyad", [A("x", "t"), A("y", "t")]), "(T2.dyad %s %s)" % (D.Te("x"), D.Te("y")))))
+                     D.OTT(D.gen("tt_dyad", [A("x", "t"), A("y", "t")]), "(T2.dyad %s %s)" % (D.Te("x"), D.Te("y"))),
+                     proof="rw [stoTT_dyad hc h2]; t4_eq hc"))
         for (u, e, h) in [("tt_Id", "T4.id", HYP), ("tt_IxI", "T4.IxI", HYP), ("tt_K", "T4.KT", H3),
                           ("tt_transpose_derivative", "T4.transp", HYP)]:
             o.append(thm(n + u, [], D.OTT(D.gen(u, []), e, masked=True), hyps=h))
@@ -179,13 +170,6 @@ def fourth_order(D, fam):
         else:
             o.append(thm(n + "tt_fromRotationMatrix", [("r", "r")],
                          D.OTT(D.gen("tt_fromRotationMatrix", [A("r", "r")]), "T4.id", masked=True)))
-        if N == 2:
-            o.append(thm(n + "tt_change_basis", [("a", "TT"), ("r", "r")],
-                         D.OTT(D.gen("tt_change_basis", [A("a", "TT"), A("r", "r")]),
-                               "(T4.pushForward (T2.transpose %s) %s)" % (D.R(), D.TT("a")))))
-        if N == 1:
-            o.append(thm(n + "tt_change_basis", [("a", "TT"), ("r", "r")],
-                         D.OTT(D.gen("tt_change_basis", [A("a", "TT"), A("r", "r")]), D.TT("a"))))
         o.append(thm(n + "tt_tpld", [("b", "t")], D.OTT(D.gen("tt_tpld", [A("b", "t")]), "(T4.tpld %s)" % D.Te("b"), masked=True),
                      doc="`tpld(B) = ∂(A·B)/∂A = δ_ik B_lj` (`Lemmas.app_tpld`: it maps `X` to `X·B`)"))
         o.append(thm(n + "tt_tprd", [("x", "t")], D.OTT(D.gen("tt_tprd", [A("x", "t")]), "(T4.tprd %s)" % D.Te("x"), masked=True),
@@ -199,26 +183,25 @@ def fourth_order(D, fam):
                      doc="`t2tot2(D)`: the same fourth-order tensor in the 9×9 storage"))
         o.append(thm(n + "tt_comp_s2t_ts", [("a", "S2T"), ("b", "TS")],
                      D.OTT(D.gen("tt_comp_s2t_ts", [A("a", "S2T"), A("b", "TS")]), "(T4.comp %s %s)" % (D.S2T("a"), D.TS("b"))),
-                     doc="`st2tot2 * t2tost2`"))
+                     doc="`st2tot2 * t2tost2`",
+                     proof="rw [stoTT_comp_S2T_TS hc h2]; t4_eq hc"))
     if fam == "ts":
         o.append("\n/-! ## t2tost2<%d> -/\n" % N)
         o.append(thm(n + "ts_apply", [("a", "TS"), ("x", "t")],
-                     D.Ost(D.gen("ts_apply", [A("a", "TS"), A("x", "t")]), "(T4.app %s %s)" % (D.TS("a"), D.Te("x")))))
+                     D.Ost(D.gen("ts_apply", [A("a", "TS"), A("x", "t")]), "(T4.app %s %s)" % (D.TS("a"), D.Te("x"))),
+                     proof="rw [st_app_TS hc h2]; t4_eq hc"))
         o.append(thm(n + "ts_applyL", [("s", "s"), ("a", "TS")],
-                     D.Ote(D.gen("ts_applyL", [A("s", "s"), A("a", "TS")]), "(T4.appL %s %s)" % (D.St("s"), D.TS("a")))))
+                     D.Ote(D.gen("ts_applyL", [A("s", "s"), A("a", "TS")]), "(T4.appL %s %s)" % (D.St("s"), D.TS("a"))),
+                     proof="rw [tens_appL_TS hc h2]; t4_eq hc"))
         o.append(thm(n + "ts_comp_st_ts", [("a", "ST"), ("b", "TS")],
-                     D.OTS(D.gen("ts_comp_st_ts", [A("a", "ST"), A("b", "TS")]), "(T4.comp %s %s)" % (D.ST("a"), D.TS("b")))))
+                     D.OTS(D.gen("ts_comp_st_ts", [A("a", "ST"), A("b", "TS")]), "(T4.comp %s %s)" % (D.ST("a"), D.TS("b"))),
+                     proof="rw [stoTS_comp_ST_TS hc h2]; t4_eq hc"))
         o.append(thm(n + "ts_comp_ts_tt", [("a", "TS"), ("b", "TT")],
-                     D.OTS(D.gen("ts_comp_ts_tt", [A("a", "TS"), A("b", "TT")]), "(T4.comp %s %s)" % (D.TS("a"), D.TT("b")))))
+                     D.OTS(D.gen("ts_comp_ts_tt", [A("a", "TS"), A("b", "TT")]), "(T4.comp %s %s)" % (D.TS("a"), D.TT("b"))),
+                     proof="rw [stoTS_comp_TS_TT hc h2]; t4_eq hc"))
         o.append(thm(n + "ts_dyad", [("s", "s"), ("x", "t")],
-                     D.OTS(D.gen("ts_dyad", [A("s", "s"), A("x", "t")]), "(T2.dyad %s %s)" % (D.St("s"), D.Te("x")))))
-        if N == 2:
-            o.append(thm(n + "ts_change_basis", [("a", "TS"), ("r", "r")],
-                         D.OTS(D.gen("ts_change_basis", [A("a", "TS"), A("r", "r")]),
-                               "(T4.pushForward (T2.transpose %s) %s)" % (D.R(), D.TS("a")))))
-        if N == 1:
-            o.append(thm(n + "ts_change_basis", [("a", "TS"), ("r", "r")],
-                         D.OTS(D.gen("ts_change_basis", [A("a", "TS"), A("r", "r")]), D.TS("a"))))
+                     D.OTS(D.gen("ts_dyad", [A("s", "s"), A("x", "t")]), "(T2.dyad %s %s)" % (D.St("s"), D.Te("x"))),
+                     proof="rw [stoTS_dyad hc h2]; t4_eq hc"))
         o.append(thm(n + "ts_convert_from_t2tot2", [("a", "TT")],
                      D.OTS(D.gen("ts_convert_from_t2tot2", [A("a", "TT")]), "(T4.symL %s)" % D.TT("a")),
                      doc="`convertToT2toST2(T)`: symmetric part of the result, `(T_ijkl + T_jikl)/2`"))
@@ -229,15 +212,20 @@ def fourth_order(D, fam):
     if fam == "s2t":
         o.append("\n/-! ## st2tot2<%d> -/\n" % N)
         o.append(thm(n + "s2t_apply", [("a", "S2T"), ("s", "s")],
-                     D.Ote(D.gen("s2t_apply", [A("a", "S2T"), A("s", "s")]), "(T4.app %s %s)" % (D.S2T("a"), D.St("s")))))
+                     D.Ote(D.gen("s2t_apply", [A("a", "S2T"), A("s", "s")]), "(T4.app %s %s)" % (D.S2T("a"), D.St("s"))),
+                     proof="rw [tens_app_S2T hc h2]; t4_eq hc"))
         o.append(thm(n + "s2t_applyL", [("x", "t"), ("a", "S2T")],
-                     D.Ost(D.gen("s2t_applyL", [A("x", "t"), A("a", "S2T")]), "(T4.appL %s %s)" % (D.Te("x"), D.S2T("a")))))
+                     D.Ost(D.gen("s2t_applyL", [A("x", "t"), A("a", "S2T")]), "(T4.appL %s %s)" % (D.Te("x"), D.S2T("a"))),
+                     proof="rw [st_appL_S2T hc h2]; t4_eq hc"))
         o.append(thm(n + "s2t_comp_tt_s2t", [("a", "TT"), ("b", "S2T")],
-                     D.OS2T(D.gen("s2t_comp_tt_s2t", [A("a", "TT"), A("b", "S2T")]), "(T4.comp %s %s)" % (D.TT("a"), D.S2T("b")))))
+                     D.OS2T(D.gen("s2t_comp_tt_s2t", [A("a", "TT"), A("b", "S2T")]), "(T4.comp %s %s)" % (D.TT("a"), D.S2T("b"))),
+                     proof="rw [stoS2T_comp_TT_S2T hc h2]; t4_eq hc"))
         o.append(thm(n + "s2t_comp_s2t_st", [("a", "S2T"), ("b", "ST")],
-                     D.OS2T(D.gen("s2t_comp_s2t_st", [A("a", "S2T"), A("b", "ST")]), "(T4.comp %s %s)" % (D.S2T("a"), D.ST("b")))))
+                     D.OS2T(D.gen("s2t_comp_s2t_st", [A("a", "S2T"), A("b", "ST")]), "(T4.comp %s %s)" % (D.S2T("a"), D.ST("b"))),
+                     proof="rw [stoS2T_comp_S2T_ST hc h2]; t4_eq hc"))
         o.append(thm(n + "s2t_dyad", [("x", "t"), ("s", "s")],
-                     D.OS2T(D.gen("s2t_dyad", [A("x", "t"), A("s", "s")]), "(T2.dyad %s %s)" % (D.Te("x"), D.St("s")))))
+                     D.OS2T(D.gen("s2t_dyad", [A("x", "t"), A("s", "s")]), "(T2.dyad %s %s)" % (D.Te("x"), D.St("s"))),
+                     proof="rw [stoS2T_dyad hc h2]; t4_eq hc"))
         o.append(thm(n + "s2t_tpld", [("s", "s")],
                      D.OS2T(D.gen("s2t_tpld", [A("s", "s")]), "(T4.symR (T4.tpld %s))" % D.St("s"), masked=True),
                      doc="`st2tot2::tpld(b)`: `∂(a·b)/∂a` for symmetric `a`, `(δ_ik b_lj + δ_il b_kj)/2`"))
@@ -362,17 +350,79 @@ def write(fn, title, imports, body, extra=""):
     print("wrote", fn)
 
 
+
+def cb_module():
+    """change_basis of the fourth-order tensors, all dimensions"""
+    o = []
+    for N in (3, 2):
+        D = Dim(N)
+        S, Tn = D.S, D.T
+        for fam, (r, c_, q1, q2, c1, c2) in (("st", (S, S, "st", "st", "st_comp", "st_comp")),
+                                              ("tt", (Tn, Tn, "tt", "tt", "tt_comp", "tt_comp")),
+                                              ("ts", (S, Tn, "st", "tt", "ts_comp_st_ts", "ts_comp_ts_tt"))):
+            R1 = {"st": S, "tt": Tn}[q1]
+            R2 = {"st": S, "tt": Tn}[q2]
+            full = {"st": (6, 6), "tt": (9, 9), "ts": (6, 9)}[fam]
+            o.append("/-- `change_basis(C,R) = Q(R) * C * Q'(Rᵀ)` with `Q = %s::fromRotationMatrix`, `Q' = %s::fromRotationMatrix` -/\n"
+                     % ({"st": "st2tost2", "tt": "t2tot2"}[q1], {"st": "st2tost2", "tt": "t2tot2"}[q2]))
+            o.append("theorem N%d_%s_change_basis (a : Fin %d → Fin %d → K) (r : Fin 3 → Fin 3 → K) :\n" % (N, fam, full[0], full[1]))
+            o.append("    let q : Fin %d → Fin %d → K := matOf %d (gen%% (Gen.N%d_%s_fromRotationMatrix_all c c3 fn) | r 3 3)\n"
+                     % ({"st": 6, "tt": 9}[q1], {"st": 6, "tt": 9}[q1], R1, N, q1))
+            o.append("    let qt : Fin %d → Fin %d → K := matOf %d (gen%% (Gen.N%d_%s_fromRotationMatrix_all c c3 fn) | (T2.transpose r) 3 3)\n"
+                     % ({"st": 6, "tt": 9}[q2], {"st": 6, "tt": 9}[q2], R2, N, q2))
+            o.append("    let qa : Fin %d → Fin %d → K := matOf %d (gen%% (Gen.N%d_%s_all c c3 fn) | q %d %d | a %d %d)\n"
+                     % (full[0], full[1], c_, N, c1, R1, R1, r, c_))
+            o.append("    (gen%% (Gen.N%d_%s_change_basis_all c c3 fn) | a %d %d | r 3 3)\n      = gen%% (Gen.N%d_%s_all c c3 fn) | qa %d %d | qt %d %d := by\n  intro q qt qa\n  t4_same_zd\n\n"
+                     % (N, fam, r, c_, N, c2, r, c_, R2, R2))
+    D = Dim(1)
+    A = lambda nm, k: D.a(nm, k)
+    o.append("/-! 1D: tensors are not rotated -/\n")
+    o.append(thm("N1_st_change_basis", [("a", "ST"), ("r", "r")], D.OST(D.gen("st_change_basis", [A("a", "ST"), A("r", "r")]), D.ST("a"))))
+    o.append(thm("N1_tt_change_basis", [("a", "TT"), ("r", "r")], D.OTT(D.gen("tt_change_basis", [A("a", "TT"), A("r", "r")]), D.TT("a"))))
+    o.append(thm("N1_ts_change_basis", [("a", "TS"), ("r", "r")], D.OTS(D.gen("ts_change_basis", [A("a", "TS"), A("r", "r")]), D.TS("a"))))
+    return "".join(o)
+
+
+def pf_module():
+    o = []
+    for N in (3, 2, 1):
+        D = Dim(N)
+        A = lambda nm, k: D.a(nm, k)
+        o.append(thm("N%d_st_push_forward" % N, [("a", "ST"), ("f", "t")],
+                     D.OST(D.gen("st_push_forward", [A("a", "ST"), A("f", "t")]), "(T4.pushForward %s %s)" % (D.Te("f"), D.ST("a"))),
+                     doc="`push_forward(C,F)_ijkl = F_im F_jn F_kp F_lq C_mnpq`, every stored component"))
+        o.append("/-- `pull_back(C,F) = push_forward(C, invert(F))`: the traced `pull_back` performs exactly the operations of the\n"
+                 "traced `invert` (`PropsT.N%d_t_invert`: `F · invert(F) = 1` when `det F ≠ 0`) followed by those of the traced\n"
+                 "`push_forward` (theorem above). `vecOf l` reads a list as a stored vector. -/\n" % N)
+        o.append("theorem N%d_st_pull_back (a : Fin 6 → Fin 6 → K) (f : Fin 9 → K) :\n" % N)
+        o.append("    let g : Fin 9 → K := vecOf (gen%% (Gen.N%d_t_invert_all c c3 fn) | f %d)\n" % (N, D.T))
+        o.append("    (gen%% (Gen.N%d_st_pull_back_all c c3 fn) | a %d %d | f %d)\n      = gen%% (Gen.N%d_st_push_forward_all c c3 fn) | a %d %d | g %d := by\n  intro g\n  t4_same_zd\n\n"
+                 % (N, D.S, D.S, D.T, N, D.S, D.S, D.T))
+    return "".join(o)
+
+
 def main():
     L = ["TfelVerif.Common.M3", "TfelVerif.Common.Model", "TfelVerif.C02.Lemmas"]
     write("PropsT.lean", "second-order tensors `tensor<N>` (N = 1,2,3) against explicit 3×3 matrices.",
           L + ["TfelVerif.C02.GenT"], "".join(tensor_part(N) for N in (3, 2, 1)) + INVERT_AND_POLAR,
           extra="  Storage `(t00 t11 t22 t01 t10 t02 t20 t12 t21)` = `M3.tens3`; `M3.plane` / `M3.diag` are the 2D / 1D matrices.\n")
-    for fam, title in (("st", "st2tost2"), ("tt", "t2tot2"), ("ts", "t2tost2"), ("s2t", "st2tot2")):
-        write("Props3%s.lean" % fam.upper(), "fourth-order tensors `%s<3>` in index notation." % title,
-              L + ["TfelVerif.C02.Gen3%s" % fam.upper()], fourth_order(Dim(3), fam))
-    for N in (1, 2):
-        write("PropsN%d.lean" % N, "fourth-order tensors in %dD in index notation." % N,
-              L + ["TfelVerif.C02.GenT", "TfelVerif.C02.GenN%d" % N], "".join(fourth_order(Dim(N), fam) for fam in ("st", "tt", "ts", "s2t")))
+    names = {"st": "st2tost2", "tt": "t2tot2", "ts": "t2tost2", "s2t": "st2tot2"}
+    for N in (3, 2):
+        for fam in ("st", "tt", "ts", "s2t"):
+            write("Props%d%s.lean" % (N, fam.upper()), "fourth-order tensors `%s<%d>` in index notation." % (names[fam], N),
+                  L + ["TfelVerif.C02.Gen%d%s" % (N, fam.upper())], fourth_order(Dim(N), fam))
+    write("PropsN1.lean", "fourth-order tensors in 1D in index notation.",
+          L + ["TfelVerif.C02.GenN1"], "".join(fourth_order(Dim(1), fam) for fam in ("st", "tt", "ts", "s2t")))
+    write("PropsCB.lean", "change of basis of the fourth-order tensors.",
+          L + ["TfelVerif.C02.GenCB"] + ["TfelVerif.C02.Gen%d%s" % (N, f) for N in (2, 3) for f in ("ST", "TT", "TS")], cb_module(),
+          extra="""  `change_basis(C, R)` is implemented as `Q(R) * C * Q'(Rᵀ)` with `Q`, `Q'` the `fromRotationMatrix` of the row and
+  column kinds; each theorem states that the traced `change_basis` is exactly that composition of the traced products
+  (same scalar operations), so that in index notation, by `N*_*_fromRotationMatrix`, the product theorems `N*_*_comp*`
+  and `Lemmas.comp_rot_comp_rot`:   change_basis(C,R)_ijkl = R_mi R_nj C_mnpq R_pk R_ql .
+  `matOf p l` reads a row-major list as a matrix (C02/Spec.lean).
+""")
+    write("PropsPF.lean", "push-forward and pull-back of `st2tost2` (ST2toST2ConceptPushForward.ixx).",
+          L + ["TfelVerif.C02.GenPF", "TfelVerif.C02.GenT"], pf_module())
 
 
 if __name__ == "__main__":
